@@ -1,6 +1,6 @@
 (* C16: restriction mode after a liquidation.  Statements only. *)
 From MP.Model Require Import Prelude U128 SInt Feed Vamm VammOps Token World Engine Runtime.
-From MP.Proofs Require Import Tactics EngineGuards MoreFacts RestrictFacts.
+From MP.Proofs Require Import Tactics EngineGuards MoreFacts RestrictFacts LrbFacts.
 From MP.Model Require Import Scenario.
 
 Theorem C16_guard_blocks : forall w v t,
@@ -129,3 +129,18 @@ Definition c16_example : bool :=
   end.
 Example C16_nonvacuous : c16_example = true.
 Proof. vm_compute. reflexivity. Qed.
+
+(* HISTORY LEVEL.  In every reachable state the marker of every vAMM is at most the current height (it is
+   only ever set to the current height, and heights do not decrease); hence as soon as the height has
+   advanced, the guard passes for every trader on every vAMM: traders in later blocks are not restricted. *)
+Theorem C16_marker_never_ahead : forall ops w, Forall block_ok ops -> lrb_le w -> lrb_le (run w ops).
+Proof. exact run_lrb. Qed.
+Print Assumptions C16_marker_never_ahead.
+Theorem C16_marker_initial : forall e d w, init_world e d = Ok w -> 0 <= height e -> lrb_le w.
+Proof. exact init_world_lrb. Qed.
+Print Assumptions C16_marker_initial.
+Theorem C16_later_blocks_unrestricted : forall w dt dh v t,
+  lrb_le w -> 0 < dh ->
+  require_not_restriction_mode (set_env w (mkEnv (now (w_env w) + dt) (height (w_env w) + dh))) v t = Ok tt.
+Proof. exact later_blocks_unrestricted. Qed.
+Print Assumptions C16_later_blocks_unrestricted.
